@@ -148,7 +148,7 @@ mpf_ui_sub (mpf_ptr r, mpir_ui u, mpf_srcptr v)
     {
       /* V completely cancelled.  */
       if (tp != up)
-	MPN_COPY (rp, up, usize);
+	MPN_COPY_INCR (rp, up, usize);
       rsize = usize;
     }
   else
@@ -159,7 +159,7 @@ mpf_ui_sub (mpf_ptr r, mpir_ui u, mpf_srcptr v)
 	{
 	  if (vsize == 0)
 	    {
-	      MPN_COPY (rp, up, usize);
+	      MPN_COPY_INCR (rp, up, usize);
 	      rsize = usize;
 	      goto done;
 	    }
@@ -171,7 +171,7 @@ mpf_ui_sub (mpf_ptr r, mpir_ui u, mpf_srcptr v)
 	{
 	  if (usize == 0)
 	    {
-	      MPN_COPY (rp, vp, vsize);
+	      MPN_COPY_INCR (rp, vp, vsize);
 	      rsize = vsize;
 	      negate ^= 1;
 	      goto done;
